@@ -60,6 +60,7 @@ structure Params where
   mintAddr      : Addr           -- GlobalMintAddress
   coinbaseAddr  : Addr           -- fat2 `coinbase` (reserved input)
   zeroAddr      : Addr           -- 32 zero bytes
+  forks         : List (Nat × Int) := []  -- pegnet.Hardforks (activation height, minimum version)
   deriving Repr
 
 def validTicker (P : Params) (t : Ticker) : Bool := decide (0 < t) && decide (t < P.tickerMax)
